@@ -136,10 +136,23 @@ Proof. exact import_binding. Qed.
 Theorem C19_embedded_selects : forall e local priv emb st t rs st',
   height t <= 2 -> wf_tree t ->
   to_iface e priv emb st t = (rs, st') ->
-  Forall (fun m => exists m0, find_decl t (rm_name m) = Some m0 /\ rm_name m = m_name m0 /\
+  Forall (fun m => exists m0, find_decl t (rm_name m) = Some m0 /\ is_meth m0 = true /\
+            rm_name m = m_name m0 /\
             (wf_ty (e_self e) local (meth_ty m0) -> alias_injective (active st') ->
              denote (e_self e) local (active st') (rmeth_expr m) = Some (erase (meth_ty m0)))) rs.
 Proof. exact interface_selects. Qed.
+
+(* Go's promotion rule as modelled (go_ms) and the selected declaration (find_decl) agree at any
+   depth: struct fields are selectors too; a name is in the method set exactly when its unique
+   shallowest selector is a method, and a name whose shallowest selector is a field — a plain
+   field of the type or of a type it embeds, shadowing a method further down — is not. *)
+Theorem C19_selector_rule : forall t n, wf_tree t -> go_ms t n = true ->
+  exists m0, find_decl t n = Some m0 /\ is_meth m0 = true /\ m_name m0 = n.
+Proof. exact go_ms_selects. Qed.
+
+Theorem C19_field_hides_method : forall t n m0, wf_tree t ->
+  find_decl t n = Some m0 -> m_field m0 = true -> go_ms t n = false.
+Proof. exact field_not_in_method_set. Qed.
 
 (* ================================================================== non-vacuity *)
 Example C19_example_names :
@@ -194,9 +207,9 @@ Qed.
    behaves the same (design_notes/C19.md). *)
 Definition ex_p (n : string) : ty := TNamed (Some ("ex.com/p", "p")) n [].
 Definition ex_foo (ts : list string) : meth :=
-  M "Foo" (map (fun s => (PI "" false false, TBasic s)) ts) false [].
+  M "Foo" (map (fun s => (PI "" false false, TBasic s)) ts) false [] false.
 Definition ex_deep : tree :=
-  Tr (ex_p "S") [M "Own" [] false []]
+  Tr (ex_p "S") [M "Own" [] false [] false]
      [Tr (ex_p "G") [] [Tr (ex_p "A") [ex_foo []] []; Tr (ex_p "F") [] [Tr (ex_p "X") [ex_foo ["int"]] []]];
       Tr (ex_p "H") [] [Tr (ex_p "Y") [] [Tr (ex_p "Z") [ex_foo ["string"]] []]]].
 Example C19_example_selects_needs_two_levels :
@@ -209,6 +222,17 @@ Proof.
   - vm_compute. auto.
 Qed.
 
+(* a plain field named like a method of the single embedded type hides it: T struct{ E; Foo func() } *)
+Definition ex_field : tree :=
+  Tr (ex_p "T") [M "Foo" [] false [] true; M "E" [] false [] true]
+     [Tr (ex_p "E") [ex_foo []; M "Bar" [] false [] false] []].
+Example C19_example_field_hides :
+  wf_tree ex_field /\ go_ms ex_field "Foo" = false /\ go_ms ex_field "Bar" = true /\
+  iface_names true true ex_field = ["Bar"] /\ iface_names_orig true true ex_field = ["Foo"; "Bar"].
+Proof.
+  split; [repeat (constructor; simpl; try tauto); intuition discriminate|]. vm_compute. auto.
+Qed.
+
 Definition ex_real (p : string) : string :=
   if String.eqb p "ex.com/sib/v2" then "realname" else if String.eqb p "context" then "context"
   else if String.eqb p "ex.com/sib/ren" then "ren" else if String.eqb p "ex.com/third" then "third"
@@ -218,7 +242,7 @@ Definition ex_specs : list (string * option string) :=
 Definition ex_tree : tree :=
   Tr (TNamed (Some ("ex.com/p", "p")) "S" [])
      [M "F" [(PI "a" false false, TNamed (Some ("ex.com/sib/v2", "realname")) "T" [])] false
-            [(PI "" false false, TPtr (TNamed (Some ("ex.com/third", "third")) "G" []))]] [].
+            [(PI "" false false, TPtr (TNamed (Some ("ex.com/third", "third")) "G" []))] false] [].
 Example C19_example_binding :
   (forall p n, assoc (e_pkg_imports ex_env) p = Some n -> n = ex_real p) /\
   (forall p, In (p, None) ex_specs -> assoc (e_pkg_imports ex_env) p <> None) /\
@@ -250,4 +274,6 @@ Print Assumptions C19_typeref.
 Print Assumptions C19_imports.
 Print Assumptions C19_interface.
 Print Assumptions C19_embedded_selects.
+Print Assumptions C19_selector_rule.
+Print Assumptions C19_field_hides_method.
 Print Assumptions C19_import_binding.
